@@ -290,7 +290,6 @@ def run(rep, tier):
     db = get_db()
     rep.tree_hash = db.tree_hash
     rep.configs = ['default']
-    rep.level = 'other'
     # (1) hash forwards to the ratio pair
     fn = db.find_impl_fn('core::hash::Hash', ['Decimal'], 'hash')
     ratio = db.find_impl_fn(T_RATIO, ['Decimal'], 'as_integer_ratio')
